@@ -299,6 +299,44 @@ func C04(c *core.Ctx) {
 		}
 	}
 
+	// ---- R4.6 in the hand-written part of the decode surface, a constant index or a
+	// last-element index into a slice that was not allocated in the function (a decoded
+	// name, a fragment list, a token) needs a dominating length guard: an empty Name
+	// element or an absent fragment is a well-formed TLV
+	nConst, nConstDecided := 0, 0
+	for _, fn := range surface {
+		if strings.HasSuffix(fn.Name(), "Parse") && strings.HasSuffix(core.FuncName(fn), "ParsingContext.Parse") {
+			continue // generated parsers index fixed-size scratch buffers only
+		}
+		for i, sk := range core.IndexSinks(fn) {
+			switch core.Strip(sk.Container).(type) {
+			case *ssa.MakeSlice, *ssa.Alloc:
+				continue
+			}
+			if _, isArr := core.Deref(sk.Container.Type()).Underlying().(*types.Array); isArr {
+				continue // fixed-size array: the compiler checks constant indices
+			}
+			// only slices that come out of a decoded value: a field of a struct reached
+			// through a pointer, or a parameter (slices built locally are not untrusted)
+			cont := core.Strip(sk.Container)
+			_, isParam := cont.(*ssa.Parameter)
+			_, path := core.FieldPath(cont)
+			if !isParam && len(path) == 0 {
+				continue
+			}
+			v := core.IndexGuarded(fn, sk, nil)
+			if !v.Decided || v.Form == "x[i]" {
+				continue // variable indices are R4.1 / R4.4
+			}
+			nConst++
+			nConstDecided++
+			key := fmt.Sprintf("decoded-slice-index-guarded:%s:%s#%d", core.FuncName(fn), v.Form, i)
+			c.Decide(v.OK, "R4.6", key, c.Pos(sk.Instr), v.Form+" is under a dominating guard "+v.Need, core.FuncName(fn)+": "+v.Form+" has no dominating guard "+v.Need+": a packet in which that element is empty or absent (e.g. an Interest with an empty Name and ApplicationParameters) makes the receive path panic")
+		}
+	}
+	c.Extra["decoded_slice_const_index_sinks"] = nConst
+	c.Floor("R4.6", "constant / last-element indices into decoded slices", nConstDecided, 2)
+
 	// ---- R4.5 stream framing makes progress: the compaction test and the "too much data"
 	// test on the number of pending bytes leave no value for which the buffer is neither
 	// compacted nor the stream rejected (one-sided comparison contradiction)
@@ -470,7 +508,16 @@ func c04StreamProgress(c *core.Ctx, fn *ssa.Function) {
 		if !ok {
 			return
 		}
-		if sl, ok := core.Strip(cl.Call.Args[1]).(*ssa.Slice); ok && sl.Low != nil && sl.High != nil && core.Same(sl.X, cl.Call.Args[0]) {
+		dst := core.Strip(cl.Call.Args[0])
+		sameBuf := func(x ssa.Value) bool {
+			if core.Same(x, dst) {
+				return true
+			}
+			// a re-slice of the buffer as destination (what is moved is C11's business)
+			d, ok := dst.(*ssa.Slice)
+			return ok && core.Same(x, d.X)
+		}
+		if sl, ok := core.Strip(cl.Call.Args[1]).(*ssa.Slice); ok && sl.Low != nil && sl.High != nil && sameBuf(sl.X) {
 			cp, low, high = cl, sl.Low, sl.High
 		}
 	})
